@@ -146,13 +146,21 @@ Section ArrivalCover.
   Qed.
 
   (* mkdir p; <mkdir / touch below p>, nothing read in between; then everything read *)
-  Theorem arrival_cover w k r p rest : RSync C w k r -> npath p -> c_recursive C = true -> scope C p ->
+  Lemma arrival_main w k r p rest : RSync C w k r -> npath p -> c_recursive C = true -> scope C p ->
     N.land IN_CREATE (c_mask C) <> 0%N ->
     Forall (below_op p) rest ->
     forall w1, apply_op w (Mkdir p) = Some w1 ->
     let KB := fst (burst_end k w (Mkdir p :: rest)) in let wn := snd (burst_end k w (Mkdir p :: rest)) in
     exists r' k' raws, read_batch C (w_fs wn) (r, drainq KB, []) (k_queue KB) = Done (r', k', raws) /\
-      RSync C wn k' r' /\ length (k_queue KB) = 1%nat.
+      RSync C wn k' r' /\ length (k_queue KB) = 1%nat /\
+      (* the worlds *)
+      grown p (w_next_ino w) (w_fs w) (w_fs wn) /\
+      (forall e, In e (w_fs w) -> f_path e <> p /\ under p (f_path e) = false) /\ p <> root /\
+      (* the read: the record of p, then the walk from a state in which p is watched *)
+      exists ev0 r3 k3 x kwx, r_path ev0 = p /\ r_mask ev0 = N.lor IN_CREATE IN_ISDIR /\
+        In x (w_fs wn) /\ f_path x = p /\ f_dir x = true /\
+        WInv C (w_fs wn) k3 r3 /\ cov k3 r3 x kwx /\
+        simulate C r3 k3 (w_fs wn) (walk p (content (w_fs wn) p)) [ev0] = Done (r', k', raws).
   Proof.
     intros S Np Hrec Sp Hm Hrest w1 Ha KB wn. destruct S as [W Hr I Cv Hq Hpd].
     assert (W1 : wf_fs w1) by exact (wf_apply_op w (Mkdir p) w1 W Np Ha).
@@ -199,7 +207,7 @@ Section ArrivalCover.
     cbv zeta. rewrite Epath, Hrec.
     assert (Hx : In x (w_fs wn)) by (apply Gm; rewrite <- E1; cbn [w_fs]; apply in_app_iff; right; now left).
     destruct (add_watch_ok C Hfaults wn _ r x Wn I0 Hx eq_refl Sp)
-      as (r3 & k3 & wd & Hadd & I3 & Q3 & N3 & M3 & (kwx & Cx & _) & P3 & L3).
+      as (r3 & k3 & wd & Hadd & I3 & Q3 & N3 & M3 & (kwx & Cx & Ewx) & P3 & L3).
     change (f_path x) with p in Hadd. rewrite Hadd.
     assert (Fp : fisdir p (w_fs wn) = true) by (apply (in_fisdir p _ (wf_paths _ Wn)); exists x; auto).
     assert (Hps : Forall (dir_in_scope C (w_fs wn)) (walk_dirs (w_fs wn) p)).
@@ -208,7 +216,11 @@ Section ArrivalCover.
     destruct (cgo_ok C Hfaults wn Wn _ k3 r3 I3 Hps) as (r4 & k4 & Hg & _ & I4 & (Q4 & N4 & M4 & X4) & Cvps & _).
     destruct (simulate_cgo C Hsim (w_fs wn) (walk p (content (w_fs wn) p)) r3 k3
                 ([] ++ [raw_ev (dirname p) (kev kw IN_CREATE true 0 (basename p))]) r4 k4 Hg) as (raws & Hsimu).
-    rewrite Hsimu. exists r4, k4, raws. split; [reflexivity|]. split; [|reflexivity].
+    rewrite Hsimu. exists r4, k4, raws. split; [reflexivity|]. split; [|split; [reflexivity|]].
+    2:{ split; [split; assumption|]. split; [exact Hold|]. split; [exact Hpr|].
+        exists (raw_ev (dirname p) (kev kw IN_CREATE true 0 (basename p))), r3, k3, x, kwx.
+        split; [exact Epath|]. split; [reflexivity|]. split; [exact Hx|]. split; [reflexivity|]. split; [reflexivity|].
+        split; [exact I3|]. split; [exact Cx | exact Hsimu]. }
     constructor; try assumption.
     - destruct Hr as (er & Her & Eer & Der). exists er. split; [now apply Gn1 | auto].
     - intros e He De Se. destruct (Gn2 e He) as [Hold'|[[Ee|Ue] _]].
@@ -219,6 +231,19 @@ Section ArrivalCover.
       + apply Cvps; [exact He|]. apply (walk_dirs_spec _ p Wn Fp). exists e. auto.
     - rewrite Q4, Q3. reflexivity.
     - assert (H3 := add_watch_pend C _ _ _ _ _ _ _ Hadd). assert (H4 := cgo_pend C (w_fs wn) _ _ _ _ _ Hg). congruence.
+  Qed.
+
+  Theorem arrival_cover w k r p rest : RSync C w k r -> npath p -> c_recursive C = true -> scope C p ->
+    N.land IN_CREATE (c_mask C) <> 0%N ->
+    Forall (below_op p) rest ->
+    forall w1, apply_op w (Mkdir p) = Some w1 ->
+    let KB := fst (burst_end k w (Mkdir p :: rest)) in let wn := snd (burst_end k w (Mkdir p :: rest)) in
+    exists r' k' raws, read_batch C (w_fs wn) (r, drainq KB, []) (k_queue KB) = Done (r', k', raws) /\
+      RSync C wn k' r' /\ length (k_queue KB) = 1%nat.
+  Proof.
+    intros S Np Hrec Sp Hm Hrest w1 Ha KB wn.
+    destruct (arrival_main w k r p rest S Np Hrec Sp Hm Hrest w1 Ha) as (r' & k' & raws & H1 & H2 & H3 & _).
+    exists r', k', raws. auto.
   Qed.
 End ArrivalCover.
 
